@@ -177,6 +177,7 @@ func c17Units(tier string) []hx.Unit {
 		}
 	}
 	scns = append(scns, c17MoreScenarios()...)
+	scns = append(scns, c17StrategyScenarios()...)
 	var units []hx.Unit
 	for _, sc := range scns {
 		units = append(units, c17Wrap(sc, tier))
@@ -217,7 +218,7 @@ func init() {
 	hx.Register(&hx.Prop{
 		ID:    "C17",
 		Title: "Vouch's own concurrency never corrupts its state",
-		Rule: "overlap scenarios (operations that run on different goroutines in production: scheduler calls, cache lookups/events/clean, block relay refresh / registration round / lookups / auction / REST registrations) explored over all interleavings within the preemption bound (quick 1, thorough 2) in a -race build whose token hand-offs carry no happens-before edge; a ThreadSanitizer report with both accesses in vouch code is a violation; " +
+		Rule: "overlap scenarios (operations that run on different goroutines in production: scheduler calls, cache lookups/events/clean, block relay refresh / registration round / lookups / auction / REST registrations; validators manager, dirk and wallet refresh vs queries; two attestation runs; sync messenger message / verification / pruning; controller head event vs attestation job vs pending query, with and without reorg; proposal unblinding with two relays; and, beyond the anchored files, each of the 14 data strategies with two nodes (answers at one instant, answer+error, late second answer, two overlapping calls), both relay auction strategies with two relays, the multinode submitter under two simultaneous submissions, sync aggregator head-root recording vs aggregation) explored over all interleavings within the preemption bound (quick 1, thorough 2) in a -race build whose token hand-offs carry no happens-before edge; a ThreadSanitizer report with both accesses in vouch code is a violation; " +
 			"non-trivial = the execution had a contended scheduling point; distinct = distinct scenarios with all operations completed",
 		Assumptions: []string{
 			"ThreadSanitizer's vector-clock detector is exact for the explored schedule; shimmed primitives perform the real synchronisation operation, model-only ones (Cond, semaphore, WaitGroup) are annotated with release/acquire",
